@@ -9,6 +9,8 @@ use rand::Rng;
 use rand_chacha::ChaCha20Rng;
 use std::fmt::Display;
 use std::str::FromStr;
+#[path = "c20_pset.rs"]
+mod pset_serde;
 
 // ------------------------------------------------------------------------------------------------ error classes
 fn int_kind(e: &std::num::ParseIntError) -> &'static str {
@@ -142,8 +144,9 @@ pub fn eval(case: &str) -> Out {
         "tp" | "tr" if w.len() == 4 => eval_text(w[1], w[2], w[3]),
         "sd" if w.len() == 6 => eval_serde(w[2], w[5]),
         "lj" if w.len() == 4 => eval_locktime_json(w[2], w[3]),
+        "lc" if w.len() == 4 => eval_locktime_ctor(w[2], w[3]),
         "dm" if w.len() == 3 => eval_probe(w[2]),
-        "ps" if w.len() == 3 => eval_pset_serde(w[2]),
+        "ps" if w.len() == 7 => eval_pset_serde(w[6]),
         _ => Out::ok("harnesserr kind".into()),
     }
 }
@@ -285,9 +288,6 @@ fn eval_probe(name: &str) -> Out {
         _ => Out::ok("harnesserr probe type".into()),
     }
 }
-/// `C20 ps <hex of a PSET>`: exploration in support — the derived PartiallySignedTransaction serde (serde_derive, serde(flatten), serde_utils map
-/// encodings) has no Coq model; the model side echoes the fixed token "pset-serde" and only the predicate is evaluated here:
-/// deserialize(serialize(p)) == p through JSON text, serde_json::Value and CBOR bytes.
 /// round trip of one value through JSON text, serde_json::Value and CBOR bytes: (format, what failed) for every format that fails
 fn rt3<T: serde::Serialize + serde::de::DeserializeOwned + PartialEq>(v: &T) -> Vec<(&'static str, String)> {
     let mut f = Vec::new();
@@ -305,43 +305,52 @@ fn rt3<T: serde::Serialize + serde::de::DeserializeOwned + PartialEq>(v: &T) -> 
     }
     f
 }
+/// `C20 ps <caps> <points> <leaf oracle> <value notation> <hex of the PSET>`: the derived PartiallySignedTransaction serde.  Result (compared with the
+/// model's): "J <json text> <verdict from text> <verdict from serde_json::Value> C <hex of cbor> <verdict>", verdicts "ok same" | "ok diff" | "err".
+/// Predicate: the PSET, its Global and every Input / Output deserialize back to an equal value in all three formats.
 fn eval_pset_serde(arg: &str) -> Out {
     use elements::pset::PartiallySignedTransaction as Pset;
     let p: Pset = match unhex(arg).and_then(|b| elements::encode::deserialize::<Pset>(&b).ok()) { Some(p) => p, None => return Out::ok("harnesserr pset".into()) };
-    let r = std::panic::catch_unwind(std::panic::AssertUnwindSafe(|| -> Option<String> {
-        // every failure of every component in every format; the maps are tried on their own because the whole PSET is blocked by F28
+    let r = std::panic::catch_unwind(std::panic::AssertUnwindSafe(|| -> (String, Option<String>) {
+        let j = match serde_json::to_string(&p) { Ok(j) => j, Err(e) => return (format!("J serr {}", e), Some("pset-serde-json|serializing a PSET to JSON failed".into())) };
+        let same = |q: &Pset| if serde_json::to_string(q).ok().as_deref() == Some(j.as_str()) { "ok same" } else { "ok diff" };
+        let jv = match serde_json::from_str::<Pset>(&j) { Ok(q) => same(&q), Err(_) => "err" };
+        let vv = match serde_json::to_value(&p).ok().and_then(|v| serde_json::from_value::<Pset>(v).ok()) { Some(q) => same(&q), None => "err" };
+        let c = match serde_cbor::to_vec(&p) { Ok(c) => c, Err(e) => return (format!("C serr {}", e), Some("pset-serde-cbor|serializing a PSET to CBOR failed".into())) };
+        let cv = match serde_cbor::from_slice::<Pset>(&c) { Ok(q) => same(&q), Err(_) => "err" };
         let mut fails: Vec<(String, &'static str, String)> = Vec::new();
+        for (fmt, what) in rt3(&p) { fails.push(("PartiallySignedTransaction".to_string(), fmt, what)); }
+        for (fmt, what) in rt3(&p.global) { fails.push(("pset::Global".to_string(), fmt, what)); }
         for (k, i) in p.inputs().iter().enumerate() { for (fmt, what) in rt3(i) { fails.push((format!("pset::Input #{}", k), fmt, what)); } }
         for (k, o) in p.outputs().iter().enumerate() { for (fmt, what) in rt3(o) { fails.push((format!("pset::Output #{}", k), fmt, what)); } }
-        for (fmt, what) in rt3(&p.global) { fails.push(("pset::Global".to_string(), fmt, what)); }
-        for (fmt, what) in rt3(&p) { fails.push(("PartiallySignedTransaction".to_string(), fmt, what)); }
-        // the known classes, by their cause
-        let class = |what: &str| -> Option<&'static str> {
-            if what.contains("duplicate field `version`") || what.contains("missing field `version`") { Some("F28-pset-serde-duplicate-version") }
-            else if what.contains("8-bit integer (byte) with value 0 or 1") { Some("F29-pset-serde-parity-visit-u8") }
-            else if what.contains("expected a borrowed string") { Some("F30-pset-serde-borrowed-str") }
-            else { None }
+        // the classes repaired by the fix: commits for F28 / F29 / F30 keep their keys so that a tree without the repairs is recognised
+        let class = |what: &str| -> &'static str {
+            if what.contains("duplicate field `version`") || what.contains("missing field `version`") { "F28-pset-serde-duplicate-version" }
+            else if what.contains("8-bit integer (byte) with value 0 or 1") { "F29-pset-serde-parity-visit-u8" }
+            else if what.contains("expected a borrowed string") { "F30-pset-serde-borrowed-str" }
+            else { "pset-serde-roundtrip" }
         };
-        // anything outside the known classes first, so that a known finding never hides a new one
-        if let Some((who, fmt, what)) = fails.iter().find(|(_, _, w)| class(w).is_none()) { return Some(format!("pset-serde-{}|{}: {}", fmt, who, what)); }
-        // then one known class per case, rotating so that every class is reported when several apply
-        let mut keys: Vec<&'static str> = fails.iter().filter_map(|(_, _, w)| class(w)).collect();
-        keys.sort(); keys.dedup();
-        if keys.is_empty() { return None; }
-        let pick = keys[(arg.len() / 2) % keys.len()];
-        let (who, fmt, what) = fails.iter().find(|(_, _, w)| class(w) == Some(pick)).unwrap();
-        Some(format!("{}|{} ({}): {}", pick, who, fmt, what))
+        let fail = fails.iter().find(|(_, _, w)| class(w) == "pset-serde-roundtrip").or(fails.first()).map(|(who, fmt, what)| format!("{}|{} ({}): {}", class(what), who, fmt, what));
+        (format!("J {} {} {} C {} {}", j, jv, vv, hex(&c), cv), fail)
     }));
     match r {
-        Ok(fail) => Out { result: "pset-serde".into(), pred_fail: fail },
-        Err(_) => Out { result: "pset-serde".into(), pred_fail: Some("pset-serde-panic|serde (de)serialization of a PSET panicked".into()) },
+        Ok((result, pred_fail)) => Out { result, pred_fail },
+        Err(_) => Out { result: "panic".into(), pred_fail: Some("pset-serde-panic|serde (de)serialization of a PSET panicked".into()) },
     }
 }
 fn ps(p: &elements::pset::PartiallySignedTransaction, mut tags: Vec<String>, out: &mut Vec<Case>) {
+    use pset_serde::ToF;
     let b = elements::encode::serialize(p);
-    if b.len() > 40_000 || elements::encode::deserialize::<elements::pset::PartiallySignedTransaction>(&b).is_err() { return; }   // (C07's business)
+    // the value is re-read from its consensus bytes by eval, so emit what that gives (C07's business whether it equals p)
+    let q = match elements::encode::deserialize::<elements::pset::PartiallySignedTransaction>(&b) { Ok(q) => q, Err(_) => return };
+    if b.len() > 40_000 { return; }
+    let mut oracle = pset_serde::Oracle::default();
+    let value = q.tof(&mut oracle);
+    if let Some(ref e) = oracle.failed { tags.push(format!("oracle-failed:{}", e.split(':').next().unwrap_or(""))); }
+    let mut pts = valid_points(&b);
+    for x in pset_serde::extra_points(&q) { if !pts.contains(&x) { pts.push(x); } }
     tags.push("serde:pset-derived".into());
-    out.push(Case { text: format!("C20 ps {}", hex(&b)), tags, nontrivial: true });
+    out.push(Case { text: format!("C20 ps {} {} {} {} {}", crate::c01::caps(), hexlist(&pts), oracle.text(), value, hex(&b)), tags, nontrivial: true });
 }
 fn gen_pset_serde(rng: &mut ChaCha20Rng, n: usize, thorough: bool, out: &mut Vec<Case>) {
     use crate::c07::{base, set_global, set_input, set_output, shapes, taptree_of, N_GLOBAL, N_INPUT, N_OUTPUT};
@@ -369,6 +378,33 @@ fn gen_pset_serde(rng: &mut ChaCha20Rng, n: usize, thorough: bool, out: &mut Vec
         for i in 0..no { for _ in 0..rng.gen_range(0..4) { let f = rng.gen_range(0..N_OUTPUT); if f == 12 || f == 13 || f == 10 { continue; } set_output(&mut p.outputs_mut()[i], f, rng, &mut tags); } if rng.gen_range(0..4) == 0 { set_output(&mut p.outputs_mut()[i], 12, rng, &mut tags); } }
         tags.sort(); tags.dedup();
         ps(&p, tags, out);
+    }
+}
+/// `C20 lc <constructor> <n>`: a LockTime built through one of its constructors, then Display -> FromStr.  FromStr goes through from_consensus only, so the
+/// other constructors (from_height / from_time / the enum variants over Height::from_consensus and Time::from_consensus) must agree with it on which side of
+/// the threshold a value lies.
+fn eval_locktime_ctor(ctor: &str, n: &str) -> Out {
+    let show = |v: &LockTime| match v { LockTime::Blocks(h) => format!("B{}", h.to_consensus_u32()), LockTime::Seconds(t) => format!("S{}", t.to_consensus_u32()) };
+    let n: u32 = match n.parse() { Ok(n) => n, Err(_) => return Out::ok("harnesserr value".into()) };
+    let l: Option<LockTime> = match ctor {
+        "from_consensus" => Some(LockTime::from_consensus(n)),
+        "from_height" => LockTime::from_height(n).ok(),
+        "from_time" => LockTime::from_time(n).ok(),
+        "Blocks" => Height::from_consensus(n).ok().map(LockTime::Blocks),
+        "Seconds" => Time::from_consensus(n).ok().map(LockTime::Seconds),
+        "From<Height>" => Height::from_consensus(n).ok().map(LockTime::from),
+        "From<Time>" => Time::from_consensus(n).ok().map(LockTime::from),
+        _ => return Out::ok("harnesserr ctor".into()),
+    };
+    match l {
+        None => Out::ok("none".into()),
+        Some(l) => {
+            let s = l.to_string();
+            let (line, back) = parse_line::<LockTime>(&s, &show, &|e| chain_class(e).unwrap_or_else(|| "int-other".into()));
+            let pred_fail = match back { Some(b) if b == l => None,
+                _ => Some(format!("text-roundtrip|LockTime built by {}({}) = {} prints as {:?}, which does not parse back to it", ctor, n, show(&l), s)) };
+            Out { result: format!("ok {} {} {}", show(&l), hex(s.as_bytes()), line), pred_fail }
+        }
     }
 }
 /// `C20 lj <Variant> <n>`: a LockTime obtained from the JSON {"<Variant>": n} (the derived Deserialize), then Display -> FromStr
@@ -459,6 +495,12 @@ fn gen_serde(rng: &mut ChaCha20Rng, n: usize, thorough: bool, out: &mut Vec<Case
         let sl = boundary_len(rng, false);
         sd("script", None, if sl == 0 { "-".into() } else { hex(&rbytes(rng, sl)) }, vec![], sl != 0, out);
         for ty in HASH_TYPES { if k < 2 || rng.gen_range(0..4) == 0 { let len = if ty == "ScriptHash" { 20 } else { 32 }; sd(&format!("hash:{}", ty), None, hex(&rbytes(rng, len)), vec![], true, out); } }
+    }
+    // LockTime through every constructor at the boundary values
+    for ctor in ["from_consensus", "from_height", "from_time", "Blocks", "Seconds", "From<Height>", "From<Time>"] {
+        for n in [0u32, 1, 499_999_999, 500_000_000, 500_000_001, u32::MAX] {
+            out.push(Case { text: format!("C20 lc {} {}", ctor, n), tags: vec!["text:LockTime".into(), format!("ctor:{}", ctor)], nontrivial: n != 0 });
+        }
     }
     // LockTime values reachable through the derived Deserialize (which does not look at the threshold)
     for (variant, n) in [("Blocks", 0u64), ("Blocks", 499_999_999), ("Blocks", 500_000_000), ("Blocks", 4294967295), ("Blocks", 4294967296), ("Seconds", 0), ("Seconds", 499_999_999),
